@@ -250,6 +250,60 @@ def _guarded(fn, o, recs, ctx, root, detail, site):
     return res, exc
 
 
+def _axs3():
+    fig = _Fig.fig or plt.figure()
+    fig.clf()
+    return fig.subplots(3, 1)
+
+
+def refused_calls(o, recs, kind, ctx, root, hist):
+    """Every function of the menu that takes a second argument tied to the HVSR object (recordings, a mask,
+    the kind of result) is called on the LIVE object with an argument that does not fit it (recordings of
+    another length, a mask of another length, the wrong number of axes, a result of the wrong kind).  Such a
+    call may be refused; refused or not, the object and the recordings must be as they were."""
+    trads = _trads(o)
+    n = len(np.asarray(trads[0].valid_window_boolean_mask)) if trads else 1
+    full = recs if recs is not None else c05.make_records([True] * n)
+    cases = []
+    if kind == "trad":
+        live = o.valid_window_boolean_mask
+        for name, sr in (("srecords-one-too-few", full[:-1]), ("srecords-one-too-many", full + [copy.deepcopy(full[0])]),
+                         ("srecords-single-recording", full[0])):
+            if name == "srecords-single-recording" and n == 1:
+                continue
+            cases.append(("plot_pre_and_post_rejection", name, sr,
+                          lambda sr=sr: PP.plot_pre_and_post_rejection(sr, o)))
+            cases.append(("plot_seismic_recordings_3c", name + "-with-the-objects-mask", sr,
+                          lambda sr=sr: PP.plot_seismic_recordings_3c(sr, valid_window_boolean_mask=live, axs=_axs3())))
+        cases.append(("plot_seismic_recordings_3c", "mask-one-too-short", full,
+                      lambda: PP.plot_seismic_recordings_3c(full, valid_window_boolean_mask=live[:-1], axs=_axs3())))
+        cases.append(("plot_seismic_recordings_3c", "two-axes", full,
+                      lambda: PP.plot_seismic_recordings_3c(full, valid_window_boolean_mask=live,
+                                                            axs=_axs3()[:2])))
+    else:
+        cases.append(("plot_pre_and_post_rejection", f"result-is-{kind}", full,
+                      lambda: PP.plot_pre_and_post_rejection(full, o)))
+    if kind != "azi":
+        for fname in ("plot_azimuthal_contour_2d",):
+            cases.append((fname, f"result-is-{kind}", None, lambda fname=fname: getattr(PP, fname)(o)))
+    for fname, why, sr, fn in cases:
+        masks = [(np.array(t.valid_window_boolean_mask), np.array(t.valid_peak_boolean_mask)) for t in trads]
+        given = sr if isinstance(sr, list) else [sr] if sr is not None else None
+        nfig = set(plt.get_fignums())
+        res, exc = _guarded(fn, o, given, ctx, root, dict(hist=list(hist), call=fname, argument=why),
+                            f"{fname}:refused:{why}")
+        for num in set(plt.get_fignums()) - nfig:
+            plt.close(num)
+        ctx.count("unfit_argument_calls")
+        ctx.count("unfit_argument_calls_refused" if exc is not None else "unfit_argument_calls_accepted")
+        if any(not np.all(np.asarray(t.valid_window_boolean_mask)) or not np.all(np.asarray(t.valid_peak_boolean_mask))
+               for t in trads):
+            ctx.count("unfit_argument_calls_on_object_with_rejections")
+        for t, (mw, mp) in zip(trads, masks):      # give the history its real state back (no-op unless a defect)
+            if not np.array_equal(t.valid_window_boolean_mask, mw) or not np.array_equal(t.valid_peak_boolean_mask, mp):
+                t.valid_window_boolean_mask, t.valid_peak_boolean_mask = mw, mp
+
+
 def check_state(o, recs, kdev, ctx, root, hist):
     n_acc = [int(np.sum(t.valid_window_boolean_mask)) for t in _trads(o)]
     if isinstance(o, HvsrDiffuseField):
@@ -258,6 +312,9 @@ def check_state(o, recs, kdev, ctx, root, hist):
     else:
         judgeable = all(n >= 2 for n in n_acc) and _stats_defined(o)
     kind = "diffuse" if isinstance(o, HvsrDiffuseField) else "trad" if isinstance(o, HvsrTraditional) else "azi"
+    # ---- calls whose second argument does not fit the object (refused), on the LIVE object; everything
+    #      below (and the rest of the history) continues from the object they leave behind
+    refused_calls(o, recs, kind, ctx, root, hist)
     # ---- plot_single_panel_hvsr_curves --------------------------------------
     for oi, opts in enumerate(product.deviations(SINGLE_PANEL_SPACE, kdev)):
         ax = _Fig.ax()
@@ -752,4 +809,12 @@ _describe_base = describe
 def describe(tier):     # noqa: F811 - the base description plus what later rounds added to the space
     d = _describe_base(tier)
     d["rule"] = d["rule"] + " " + "In every traditional state plot_pre_and_post_rejection is also run on an object whose mean_curve raises once (RuntimeError, KeyboardInterrupt): the object must be unchanged. The meshes handed to Axes.contourf / Axes3D.plot_surface are recorded and judged (for every azimuth of the object a row at that azimuth carrying that azimuth's mean curve); one root stores the azimuths as [90, 0, 45]; one root swaps which window of azimuth 0 is rejected between two drawings of the same live object. Further roots: one accepted window 30 times stronger than the others (traditional and azimuthal), three two-peak windows (range updates with peak options are in the menu). In every traditional state recordings with two nan samples are drawn (they must stay unchanged); the azimuthal summary is drawn for all four (distribution_mc, distribution_fn) pairs."
+    d["rule"] += (" In every state, before anything else and on the LIVE object of the history, every function whose "
+                  "second argument is tied to the object is called with an argument that does not fit it: "
+                  "plot_pre_and_post_rejection with recordings one too few / one too many / a single recording, "
+                  "and with an azimuthal / diffuse-field result; plot_seismic_recordings_3c with the object's own mask "
+                  "and those recordings, with the mask one too short, with two axes; plot_azimuthal_contour_2d with a "
+                  "traditional / diffuse-field result.  Refused or not, object and recordings must be bit-identical "
+                  "(keys C20:<function>:refused:<argument>:object-modified:...); the history continues from that object. "
+                  "Counters: unfit_argument_calls(_refused/_accepted/_on_object_with_rejections).")
     return d
